@@ -4,6 +4,15 @@
 #![allow(unused, clippy::all, clippy::pedantic, clippy::nursery, missing_docs)]
 extern crate std;
 use super::*;
+// explicit imports of what the harnesses use, so that a change of `task.rs`'s own `use` lines
+// does not break the build of the harness module
+use crate::frame::{Frame, Payload};
+use crate::ws::{Message, WebSocket};
+use crate::{BindRequest, Datagram, Error, EstablishedStreamData, FlowSlot, Multiplexor, MuxStream};
+use bytes::Bytes;
+use core::future::Future;
+use core::task::{Context, Poll};
+use tokio::sync::mpsc;
 use crate::frame::{BindType, OpCode};
 use crate::verif_common::*;
 use crate::{vassert, vfail};
@@ -427,6 +436,10 @@ h!(c02_d_push_order, 8, d_push_order());
 // =======================================================================================
 // C02-S: the sender task moves exactly the head of the outbound FIFO into the sink
 // =======================================================================================
+/// Driven through `process_message_to_send_task` (the future `Task::start` selects on), not
+/// through its private helper: one poll, then the future is cancelled the way the select
+/// cancels it when another branch (e.g. the dropped-handle signal) finishes first.  Whatever
+/// was queued must then be either in the sink, in order, or still in the queue.
 fn s_sink_step(ready: Step) {
     let mut ep = endpoint(small_options(), KRng::fixed([1, 2, 3, 4]));
     let a = leak2(kani::any());
@@ -434,32 +447,32 @@ fn s_sink_step(ready: Step) {
     ep.task.tx_msg_tx.send(Message::Binary(Bytes::from_static(&a[..]))).ok();
     ep.task.tx_msg_tx.send(Message::Binary(Bytes::from_static(&b[..]))).ok();
     ep.task.ws.lock().ready = ready;
-    let w = counting_waker();
-    let mut cx = Context::from_waker(&w);
-    let r = ep.task.poll_reserve_space_queue_message(&mut cx, &mut ep.tx_msg_rx);
+    let r = {
+        let fut = ep.task.process_message_to_send_task(&mut ep.tx_msg_rx);
+        let mut fut = core::mem::ManuallyDrop::new(fut);
+        poll_once(unsafe { Pin::new_unchecked(&mut *fut) })
+        // cancelled here (its locals, a dequeued message included, are gone with it)
+    };
     let sent = ep.task.ws.lock().sent_len;
+    let queued = ep.tx_msg_rx.len();
+    if ready != Step::Err {
+        // (with a failed sink nothing can be transmitted any more: not required)
+        vassert!(sent + queued == 2, "P:C08 a queued frame is neither in the sink nor in the queue after the sender step was cancelled (lost on a local drop)");
+    }
     match (&r, ready) {
-        (Poll::Ready(Ok(())), Step::Ok) => {
-            vassert!(sent == 1 && ep.tx_msg_rx.len() == 1, "P:C02 one sender step did not move exactly one message");
+        (Poll::Pending, Step::Ok) => {
+            vassert!(sent == 2 && queued == 0, "P:C02 the sender did not move the queued messages into a ready sink");
             let g = ep.task.ws.lock();
-            match &g.sent[0] {
-                Some(Message::Binary(x)) => vassert!(x.len() == 2 && x[0] == a[0] && x[1] == a[1], "P:C02 the sender step reordered or modified the outbound queue"),
-                _ => vfail!("P:C02 the sender step sent something that was not at the head of the queue"),
+            match (&g.sent[0], &g.sent[1]) {
+                (Some(Message::Binary(x)), Some(Message::Binary(y))) => {
+                    vassert!(x.len() == 2 && x[0] == a[0] && x[1] == a[1] && y.len() == 2 && y[0] == b[0] && y[1] == b[1], "P:C02 the sender reordered or modified the outbound queue");
+                }
+                _ => vfail!("P:C02 the sender sent something that was not queued"),
             }
             drop(g);
-            // second step: the second message, after the first
-            let r2 = ep.task.poll_reserve_space_queue_message(&mut cx, &mut ep.tx_msg_rx);
-            vassert!(matches!(r2, Poll::Ready(Ok(()))), "P:C02 second sender step failed");
-            let g = ep.task.ws.lock();
-            match &g.sent[1] {
-                Some(Message::Binary(x)) => vassert!(g.sent_len == 2 && x[0] == b[0] && x[1] == b[1], "P:C02 the second message did not follow the first"),
-                _ => vfail!("P:C02 the second message was lost"),
-            }
-            drop(g);
-            core::mem::forget(r2);
         }
         (Poll::Pending, Step::Pending) => {
-            vassert!(sent == 0 && ep.tx_msg_rx.len() == 2, "P:C02 a message was taken from the queue although the sink was not ready");
+            vassert!(sent == 0 && queued == 2, "P:C02 a message was taken from the queue although the sink was not ready");
             vassert!(ep.task.ws.lock().sink_waker_parked, "P:C08 sender step is pending without the sink holding its waker");
         }
         (Poll::Ready(Err(_)), Step::Err) => {
@@ -1276,7 +1289,7 @@ h!(c16_answered_within_t_i3_t3_p2, 8, f_c16_answered_within_t(3, 3, 2));
 /// `drain`: the multiplexor handle was dropped (outbound queue must be flushed in order).
 /// The transport then behaves as the solver chooses: sink ready / failing, source ending
 /// (None) or failing.
-fn f_c08_wind_down(drain: bool, may_have_late_frame: bool) {
+fn f_c08_wind_down(drain: bool, late_frame: bool, end: Step) {
     use tokio::io::{AsyncBufRead, AsyncWrite};
     let mut ep = endpoint(small_options(), KRng::fixed([1, 2, 3, 4]));
     // one established flow with data already delivered, one pending open, one pending bind
@@ -1292,13 +1305,12 @@ fn f_c08_wind_down(drain: bool, may_have_late_frame: bool) {
     ep.task.tx_msg_tx.send(Message::Binary(Bytes::from_static(&p2[..]))).ok();
     // one more Push for the established flow is still in the source
     let late = leak2(kani::any());
-    let late_frame: bool = if may_have_late_frame { kani::any() } else { false };
     {
         let mut ws = ep.task.ws.lock();
         if late_frame {
             ws.push_in(Frame::new_push_owned(ID_A, Bytes::from_static(&late[..])).into());
         }
-        ws.at_end = if kani::any() { Step::Ok } else { Step::Err };
+        ws.at_end = end; // concrete per instance, see script_end
         ws.ready = if kani::any() { Step::Ok } else { Step::Err };
         ws.close = if kani::any() { Step::Ok } else { Step::Err };
     }
@@ -1561,10 +1573,10 @@ fn f_c08_api_after_end() {
 }
 h!(c08_api_after_end, 8, f_c08_api_after_end());
 
-h!(c08_wind_down_peer_ended, 8, f_c08_wind_down(false, false));
-h!(c08_wind_down_local_drop, 8, f_c08_wind_down(true, false));
-h!(c08_wind_down_peer_ended_inflight, 8, f_c08_wind_down(false, true));
-h!(c08_wind_down_local_drop_inflight, 8, f_c08_wind_down(true, true));
+h!(c08_wind_down_peer_ended, 8, f_c08_wind_down(false, false, Step::Ok));
+h!(c08_wind_down_local_drop, 8, f_c08_wind_down(true, false, Step::Ok));
+h!(c08_wind_down_peer_ended_inflight, 8, f_c08_wind_down(false, true, Step::Ok));
+h!(c08_wind_down_local_drop_inflight, 8, f_c08_wind_down(true, true, Step::Err));
 
 /// Keepalive expires on a transport that stays silent (never yields a message, never ends):
 /// the connection task must complete with KeepaliveTimeout instead of waiting for the peer.
